@@ -493,7 +493,10 @@ class Parser:
     def _concat_strings_in_constant(self, parts: list[TokenInfo]) -> ast.Constant:
         s = ast.literal_eval(parts[0].string)
         for ss in parts[1:]:
-            s += ast.literal_eval(ss.string)
+            value = ast.literal_eval(ss.string)
+            if isinstance(value, bytes) != isinstance(s, bytes):
+                self.raise_syntax_error_known_location("cannot mix bytes and nonbytes literals", ss)
+            s += value
         args = {
             "value": s,
             "lineno": parts[0].start[0],
